@@ -73,13 +73,11 @@ theorem take_seqs_refines (a : AlnA) (names : List String) (negate : Bool) :
 
 example : showA (takeSeqs (ofStrings [("s0", "G-".toList), ("s1", "AC".toList)]) ["s1"] false) = [("s1", "AC".toList)] := by decide
 
-/-- The defect witness inside the model: slicing `G--` by `[0:4]` keeps a map that claims 2
-residues for a 1-residue sequence, and reverse-complementing that row shows `C--` where the
-string operation gives `--C`.  (This is why `slice_refines` is only stated for in-range stops.) -/
-theorem slice_beyond_len_counter :
-    (rowSlice (rowOfString "G--".toList) (some 0) (some 4)).toOption.map (fun r => (r.map.parentLength, r.data.length)) = some (2, 1) ∧
+/-- Regression anchor for the repaired clamp: slicing the row of `G--` by `[0:4]` and reverse
+complementing shows `--C`, what the string operations give. -/
+theorem slice_beyond_len_then_rc_example :
     ((rowSlice (rowOfString "G--".toList) (some 0) (some 4)).toOption.bind fun r => (rowRc true r).toOption.map gapped)
-      = some "C--".toList := by decide
+      = some "--C".toList := by decide
 
 /- FULL STATEMENT (not proved): `aln_refines` — for every alignment `a` whose rows are well formed and
 every list `ops` of slice / int / rc / take_positions / take_seqs / keep-blocks / + / to_rna / to_dna,
